@@ -189,6 +189,19 @@ def edges_to_file(out_path, dest, tag="E", limit=None, rng_seed=None):
 VIOL_RE = re.compile(r'^<<"VIOL", (\d+), \{(.*)\}>>$')
 
 
+def tagged(out_path, tag):
+    """(node, [clauses]) pairs printed as PrintT(<<tag, ToJson([n |-> .., c |-> ..])>>) - one JSON string per
+    line, because TLC wraps long tuples/sets over several lines but never a string."""
+    res = []
+    for payload in printed(out_path, tag):
+        try:
+            d = json.loads(payload)
+        except (ValueError, TypeError):
+            continue      # not the JSON form
+        res.append((int(d["n"]), sorted(d["c"])))
+    return res
+
+
 def trace_check(module, cfg, trie_path, wd, timeout=900, env=None, xmx="8g"):
     """Run a Trace_* specification over an NDJSON trie. Returns (viols, tlc_result) where viols is a
     list of (node_id, [clause,...])."""
@@ -203,11 +216,12 @@ def trace_check(module, cfg, trie_path, wd, timeout=900, env=None, xmx="8g"):
     if '<<"UNVISITED"' in txt:
         raise ToolError("trace validation %s did not visit every trie node" % module)
     viols = []
-    for line in txt.splitlines():
+    for line in txt.splitlines():          # short form  <<"VIOL", node, {"clause"}>>  (one clause per line)
         m = VIOL_RE.match(line.strip())
         if m:
-            clauses = [c.strip().strip('"') for c in m.group(2).split(",") if c.strip()]
-            viols.append((int(m.group(1)), clauses))
+            viols.append((int(m.group(1)), [c.strip().strip('"') for c in m.group(2).split(",") if c.strip()]))
+    if not viols:                          # JSON form   <<"VIOL", "{\"n\":..,\"c\":[..]}">>
+        viols = [(n, c) for n, c in tagged(res["out"], "VIOL") ]
     return viols, res
 
 
